@@ -396,9 +396,36 @@ def check_inline_boundary(env: Env, a, b):
     return None
 
 
+DIM_PROBES = ["-1", "True", "np.int64(2)", "2.0", "''", "(2,-3)"]
+
+
+def check_dim_domain(env: Env, name):
+    """The model's dimensions are naturals. What the constructor does outside that domain is recorded
+    (evidence), and the round trip - which the statement claims for *any* type - is still demanded of
+    whatever it accepts (negative ints, bools). A negative dimension describes no runtime value, so the
+    exactness of `_subtype` is claimed for natural constants only. -> (status, None | (key, what))"""
+    np = env.np
+    shape = {"-1": (-1,), "True": (True,), "np.int64(2)": (np.int64(2),), "2.0": (2.0,), "''": ("",), "(2,-3)": (2, -3)}[name]
+    try:
+        t = env.ts.Tensor(np.float32, shape)
+    except Exception as e:  # noqa: BLE001
+        return f"refused ({type(e).__name__})", None
+    status = f"accepted as {t.shape!r}"
+    to_onnx, from_onnx = internal(t, "_to_onnx"), internal(env.ts.Type, "_from_onnx")
+    try:
+        back = from_onnx(env.onnx.TypeProto.FromString(to_onnx().SerializeToString()))
+    except Exception as e:  # noqa: BLE001
+        return status, (f"dim-domain:{name}:roundtrip-raises",
+                        f"{t!r} is constructible but has no ONNX form: {type(e).__name__}: {e}")
+    if back != t or hash(back) != hash(t):
+        return status, (f"dim-domain:{name}:roundtrip-differs", f"{t!r} -> ONNX -> {back!r} (equal={back == t})")
+    return status, None
+
+
 CHECKS = {
     "roundtrip": lambda env, c: check_roundtrip(env, c["type"]),
     "roundtrip_public": lambda env, c: check_roundtrip_public(env, c["type"]),
+    "dim_domain": lambda env, c: check_dim_domain(env, c["probe"])[1],
     "spelling": lambda env, c: check_spelling_pair(env, c["s1"], c["s2"], None if c["shape"] is None else tuple(c["shape"])),
     "refusal": lambda env, c: check_refusal(env, c["name"], c["defined"]),
     "subtype": lambda env, c: check_subtype(env, c["a"], c["b"]),
@@ -559,6 +586,19 @@ def run(ck: core.Check):
             ck.failure(bad[0], bad[1], {"check": "roundtrip_public", "type": ty})
 
     guard("public round trip (build -> inline)", facet_roundtrip_public)
+
+    # ---------------------------------------------------------------- the domain of dimensions (guard of the theorems)
+    def facet_dim_domain():
+        seen = {}
+        for name in DIM_PROBES:
+            status, bad = check_dim_domain(env, name)
+            seen[name] = status
+            ck.count(("dim-domain", name))
+            if bad:
+                ck.failure(bad[0], bad[1], {"check": "dim_domain", "probe": name})
+        ck.cov["dimension_domain_probe"] = seen
+
+    guard("dimension domain", facet_dim_domain)
 
     # ---------------------------------------------------------------- _subtype: pairwise sweep
     state = {}
